@@ -83,7 +83,7 @@ def corpus(seed, tier):
         out.append(bytes(r.choice(b'the quick brown fox jumps over the lazy dog ') for _ in range(n)))
     return out
 
-@obligation(P, 'TLSH.__call__/model', cls='B', bound='18 configurations (3 bucket counts x windows 4..8 x checksum 1,3 in the thorough tier; 8 in quick), seeded corpus of ~17 inputs incl. too-short and low-entropy ones, force flag',
+@obligation(P, 'TLSH.__call__/model', cls='B', native=True, bound='18 configurations (3 bucket counts x windows 4..8 x checksum 1,3 in the thorough tier; 8 in quick), seeded corpus of ~17 inputs incl. too-short and low-entropy ones, force flag',
             cases=lambda tier: [{'cfg': '%d,%d,%d' % c_} for c_ in (CFGS if tier != 'quick' else [(128, 5, 1), (256, 5, 1), (48, 5, 1), (128, 4, 3), (128, 8, 1), (256, 7, 3), (48, 6, 1), (128, 6, 1)])],
             funcs=['crysp.tlsh.TLSH.__init__', 'crysp.tlsh.TLSH.__call__', 'crysp.tlsh.TLSH.update', 'crysp.tlsh.TLSH.final', 'crysp.tlsh.TLSH.digest', 'crysp.tlsh.TLSH.triplet', 'crysp.tlsh.TLSH.b_mapping', 'crysp.tlsh.TLSH.find_quartiles', 'crysp.tlsh.TLSH.l_capturing', 'crysp.tlsh.TLSH.reset'])
 def _(c):
@@ -107,7 +107,7 @@ def _(c):
     for d, h in v:
         c.ensure('vector', tlsh.TLSH(128)(d).hex().upper() == h)
 
-@obligation(P, 'TLSH.from_hash/roundtrip', cls='B', bound='6 (buckets, checksum) layouts; all-equal-byte digests for every byte value and 64 seeded digests each',
+@obligation(P, 'TLSH.from_hash/roundtrip', cls='B', native=True, bound='6 (buckets, checksum) layouts; all-equal-byte digests for every byte value and 64 seeded digests each',
             cases={'b': [48, 128, 256], 'k': [1, 3]}, funcs=['crysp.tlsh.TLSH.from_hash', 'crysp.tlsh.TLSH.digest'])
 def _(c):
     b, k = c.case('b'), c.case('k'); n = k + 2 + b // 4
@@ -117,7 +117,7 @@ def _(c):
         c.ensure('serialises-back', t.lsh_code == h and t.digest().lsh_code == h)
         c.ensure('fields', bytes(swap(x) for x in t.checksum) == h[:k] and swap(t.Lvalue) == h[k] and (t.q1_ratio << 4 | t.q2_ratio) == h[k + 1] and bytes(t.tmp_code[::-1]) == h[k + 2:])
 
-@obligation(P, 'tlsh.distance/laws', cls='B', bound='6 layouts, 40 seeded digest pairs each plus near pairs (one nibble apart)', cases={'b': [48, 128, 256], 'k': [1, 3]}, funcs=['crysp.tlsh.distance', 'crysp.tlsh.TLSH.distance_to'])
+@obligation(P, 'tlsh.distance/laws', cls='B', native=True, bound='6 layouts, 40 seeded digest pairs each plus near pairs (one nibble apart)', cases={'b': [48, 128, 256], 'k': [1, 3]}, funcs=['crysp.tlsh.distance', 'crysp.tlsh.TLSH.distance_to'])
 def _(c):
     b, k = c.case('b'), c.case('k'); n = k + 2 + b // 4
     r = random.Random(b * 100 + k)
@@ -163,7 +163,7 @@ def nilsimsa_model(data, target=53):
         if acc[i] > thr: code[i >> 3] += 1 << (i & 7)
     return bytes(code[::-1])
 
-@obligation(P, 'Nilsimsa/model', cls='B', bound='targets {53 default, 0, 1, 7, 255}; seeded corpus incl. lengths 0..6', cases={'target': ['None', '0', '1', '7', '255']}, funcs=['crysp.nilsimsa.Nilsimsa.__init__', 'crysp.nilsimsa.Nilsimsa.maketran', 'crysp.nilsimsa.Nilsimsa.update', 'crysp.nilsimsa.Nilsimsa.digest', 'crysp.nilsimsa.Nilsimsa.tran3'])
+@obligation(P, 'Nilsimsa/model', cls='B', native=True, bound='targets {53 default, 0, 1, 7, 255}; seeded corpus incl. lengths 0..6', cases={'target': ['None', '0', '1', '7', '255']}, funcs=['crysp.nilsimsa.Nilsimsa.__init__', 'crysp.nilsimsa.Nilsimsa.maketran', 'crysp.nilsimsa.Nilsimsa.update', 'crysp.nilsimsa.Nilsimsa.digest', 'crysp.nilsimsa.Nilsimsa.tran3'])
 def _(c):
     tg = None if c.case('target') == 'None' else int(c.case('target'))
     o = nilsimsa.Nilsimsa(tg)
